@@ -30,11 +30,14 @@ import (
 	"time"
 
 	"github.com/itchio/lake/pools/fspool"
+	"github.com/itchio/savior"
+	"github.com/itchio/savior/seeksource"
 	"github.com/pkg/errors"
 
 	"github.com/itchio/wharf/pwr"
 	"github.com/itchio/wharf/pwr/bowl"
 	"github.com/itchio/wharf/pwr/patcher"
+	"github.com/itchio/wharf/wire"
 
 	"verif/harness/lib"
 )
@@ -185,6 +188,9 @@ func c03Pair(r *lib.Rng, class string, maxBlocks int) (*lib.Build, *lib.Build, [
 	if class == "multi" || r.Chance(1, 2) {
 		put(pfx()+"mix.bin", nil, c03Mix(r, olds, r.Range(3, maxBlocks/2+3)), "mix")
 	}
+	if class == "large" { // a patch of several MiB: liveness of checkpoint delivery under compression
+		put(pfx()+"huge_new.bin", nil, r.Bytes(5<<20+r.Intn(1<<20)), "added-large")
+	}
 	if class == "multi" {
 		if r.Chance(2, 3) { // whole-file copy under the same and under another name
 			d := r.Bytes(blocks(1, 2))
@@ -330,9 +336,46 @@ func c03Decode(g []byte) (*patcher.Checkpoint, error) {
 	return c, err
 }
 
+// c03ProbeBoundaries asks the decompressing source of the patch for a checkpoint before every
+// read and returns the (decompressed) offsets at which it handed one out.
+func c03ProbeBoundaries(patch []byte) (offs []int64) {
+	lib.Guard(func() error {
+		src := seeksource.FromBytes(patch)
+		if _, err := src.Resume(nil); err != nil {
+			return err
+		}
+		raw := wire.NewReadContext(src)
+		if err := raw.ExpectMagic(pwr.PatchMagic); err != nil {
+			return err
+		}
+		ph := &pwr.PatchHeader{}
+		if err := raw.ReadMessage(ph); err != nil {
+			return err
+		}
+		dctx, err := pwr.DecompressWire(raw, ph.Compression)
+		if err != nil {
+			return err
+		}
+		s := dctx.GetSource()
+		s.SetSourceSaveConsumer(&savior.CallbackSourceSaveConsumer{OnSave: func(c *savior.SourceCheckpoint) error {
+			offs = append(offs, c.Offset)
+			return nil
+		}})
+		buf := make([]byte, 32768)
+		for {
+			s.WantSave()
+			if _, err := s.Read(buf); err != nil {
+				return nil
+			}
+		}
+	})
+	return offs
+}
+
 // ---------------------------------------------------------------- one configuration
 
 type c03Config struct {
+	large    bool
 	name     string
 	patch    []byte
 	pi       *c03PatchInfo
@@ -617,10 +660,33 @@ func (cfg *c03Config) run(r *lib.Rng) (res c03Result) {
 		}
 		res.coq = append(res.coq, cfg.coqOffers(nil, rec))
 	} else {
+		// Decompressing sources can only checkpoint where their library can (deflate block /
+		// brotli meta-block boundaries, the latter megabytes apart at quality >= 4), and a
+		// request is only relayed from inside a relay loop: report the rate; fail only when
+		// the source itself, asked before every read, hands out many checkpoints after the
+		// first relay-loop iteration and the patcher still delivered none
 		mib := float64(len(cfg.patch)) / (1 << 20)
 		res.obs["checkpointsPerMiB"] = float64(n) / mib
-		if n == 0 && len(cfg.patch) >= 4<<20 {
-			return fail("liveness: no checkpoint at all over a %d-byte %s patch with an always-true ShouldSave", len(cfg.patch), cfg.comp)
+		if n == 0 {
+			first := int64(-1)
+			for _, se := range cfg.pi.Series {
+				if !se.FullFile && se.Last-se.First >= 3 {
+					first = cfg.pi.Msgs[se.First+2].Start
+					break
+				}
+			}
+			usable := 0
+			if first >= 0 {
+				for _, b := range c03ProbeBoundaries(cfg.patch) {
+					if b > first {
+						usable++
+					}
+				}
+			}
+			res.obs["sourceBoundariesAfterFirstLoop"] = usable
+			if usable >= 16 {
+				return fail("liveness: no checkpoint at all over a %d-byte %s patch with an always-true ShouldSave although the source offers %d checkpoints after the first relay-loop iteration", len(cfg.patch), cfg.comp, usable)
+			}
 		}
 	}
 	if n == 0 {
@@ -633,8 +699,14 @@ func (cfg *c03Config) run(r *lib.Rng) (res c03Result) {
 	if cfg.opt {
 		maxK = 4 // every brand-new patcher that meets a bsdiff series allocates a 32 MiB cache: ~0.1 s
 	}
-	if cfg.thorough {
-		maxK = n
+	if cfg.thorough { // all checkpoints, up to a bound that keeps the tier within its budget
+		maxK = 48
+		if cfg.opt {
+			maxK = 24
+		}
+	}
+	if cfg.large {
+		maxK = 6
 	}
 	if n <= maxK {
 		for k := 0; k < n; k++ {
@@ -847,7 +919,7 @@ func runC03(c *Ctx) error {
 	thorough := c.Tier == "thorough"
 	npairs := 2
 	if thorough {
-		npairs = 24
+		npairs = 10
 	} else if c.Tier == "search" {
 		npairs = 3
 	}
@@ -867,9 +939,15 @@ func runC03(c *Ctx) error {
 		if pi%2 == 1 {
 			class = "genpair"
 		}
+		if thorough && pi == npairs-1 {
+			class = "large"
+		}
+		if only := os.Getenv("C03_ONLY"); only != "" && only != fmt.Sprint(pi) {
+			continue // debugging aid: run a single pair
+		}
 		maxBlocks := 14
 		if thorough {
-			maxBlocks = []int{8, 12, 16, 32}[pi%4]
+			maxBlocks = []int{10, 16, 24, 32}[pi%4]
 		}
 		old, nw, rel := c03Pair(pr, class, maxBlocks)
 		base := filepath.Join(c.Tmp, fmt.Sprintf("c03-%d", pi))
@@ -931,7 +1009,7 @@ func runC03(c *Ctx) error {
 					}
 					jobs = append(jobs, &job{cls: name, rng: pr.Fork(),
 						cfg: &c03Config{name: name, patch: patch, pi: info, overlay: ov, comp: comp, opt: kind == "opt", old: old, nw: nw, oldDir: oldDir,
-							base: filepath.Join(base, strings.ReplaceAll(name, "/", "-")), thorough: thorough},
+							base: filepath.Join(base, strings.ReplaceAll(name, "/", "-")), thorough: thorough, large: class == "large"},
 						in: map[string]interface{}{"pair": pi, "pairClass": class, "relations": rel, "old": old.Summary(), "new": nw.Summary(),
 							"patch": kind, "bowl": bw, "compression": comp.String(), "bsdiffSeries": nbs, "series": len(info.Series)}})
 				}
